@@ -113,12 +113,30 @@ def compare(orig, ep, osem, esem, info):
         d.append("jobs disappeared: " + ", ".join("%s/%s/%d" % k for k in sorted(removed)[:3]))
     removed_insts = {k[0] for k in removed}
 
-    def val(v):
-        return mro.untag(v) if v["k"] != "null" else None
+    stage_of = {i["inst"]: i.get("stage", "") for i in osem["inv"]}
+
+    def files(v, original):
+        """file values name the instance and the output that wrote them: for the original
+        program they are spelled the way the edited program spells them"""
+        if isinstance(v, dict):
+            if set(v) == {"#file"} and isinstance(v["#file"], str) and original:
+                parts = v["#file"].split("|")
+                if len(parts) == 3:
+                    if rout and stage_of.get(parts[0]) == rout[0] and parts[2] == rout[1]:
+                        parts[2] = rout[2]
+                    parts[0] = tr(parts[0])
+                return {"#file": "|".join(parts)}
+            return {k_: files(x, original) for k_, x in v.items()}
+        if isinstance(v, list):
+            return [files(x, original) for x in v]
+        return v
+
+    def val(v, original=False):
+        return files(mro.untag(v), original) if v["k"] != "null" else None
 
     for k in sorted(set(ej) & set(oj)):
         a, b, st = oj[k], ej[k], ost[k]
-        oa, ea = val(a["args"]), val(b["args"])
+        oa, ea = val(a["args"], True), val(b["args"])
         if isinstance(oa, dict) and isinstance(ea, dict):
             if rin and rin[0] == st:
                 ea = {(rin[1] if x == rin[2] else x): v for x, v in ea.items()}
@@ -126,7 +144,7 @@ def compare(orig, ep, osem, esem, info):
                 oa = {x: v for x, v in oa.items() if x != info["removed_input"][1]}
         if oa != ea:
             d.append("arguments of %s/%s/%d changed: %s -> %s" % (k + (json.dumps(oa)[:120], json.dumps(ea)[:120])))
-        oo, eo = val(a["outs"]), val(b["outs"])
+        oo, eo = val(a["outs"], True), val(b["outs"])
         if isinstance(oo, dict) and isinstance(eo, dict):
             if rout and rout[0] == st:
                 eo = {(rout[1] if x == rout[2] else x): v for x, v in eo.items()}
@@ -143,7 +161,7 @@ def compare(orig, ep, osem, esem, info):
                 d.append("dependencies of %s/%s/%d grew: %s -> %s" % (k + (od, ed)))
         elif od != ed:
             d.append("dependencies of %s/%s/%d changed: %s -> %s" % (k + (od, ed)))
-    otop = val(osem["outs"])
+    otop = val(osem["outs"], True)
     etop = val(esem["outs"])
     if rout and rout[0] == topname:
         etop = {(rout[1] if x == rout[2] else x): v for x, v in etop.items()}
